@@ -663,3 +663,20 @@ Proof.
   intros Hrun Hr id Hsp. destruct (no_session_leaked m evs s o Hrun id Hsp) as [Ha|H]; [|exact H].
   destruct (after_stop m evs s o Hrun Hr) as [_ Hdead]. rewrite Hdead in Ha. discriminate.
 Qed.
+
+(* a connection arriving while the server runs is always accepted - also at the limit *)
+Lemma accept_spawns m evs s o s' o' : run (init m) evs = Some (s, o) -> running s = true ->
+  step s (Accept true) = Some (s', o') ->
+  In (Spawned (next_id (trk s))) o' /\ alive s' (next_id (trk s)) = true /\ running s' = true.
+Proof.
+  intros Hrun Hr Hstep. destruct (run_inv _ _ _ _ (sinv_init m) Hrun) as [[Hinv _] _].
+  unfold step in Hstep. rewrite Hr in Hstep. cbn [negb] in Hstep.
+  destruct (add (trk s)) as [[[t' id] ev]|] eqn:Hadd; [|discriminate]. inversion Hstep; subst. clear Hstep.
+  assert (Hid : next_id (trk s) <> u128_max).
+  { intros E. unfold add, get_next_id in Hadd.
+    destruct (if (max_sessions (trk s) <=? length (sessions (trk s)))%nat then _ else _) as [ss e0] in Hadd.
+    cbn [next_id] in Hadd. rewrite E, N.eqb_refl in Hadd. discriminate. }
+  destruct (add_spec _ Hinv Hid) as (kept & ev' & Heq & _). rewrite Heq in Hadd. inversion Hadd; subst. clear Hadd.
+  split; [apply in_or_app; right; now left|]. split; [|reflexivity].
+  apply alive_iff. cbn. apply in_or_app. right. now left.
+Qed.
